@@ -15,7 +15,8 @@
    than the start time.  The constructor's `times` may come in any form [f]: list / tuple / scalar /
    expression / file (FList) or a numpy array (FNdarray); replace() hands the constructor a numpy array. *)
 From Coq Require Import QArith ZArith List Bool Lia.
-From PyxelV Require Import Model.Exposure Proofs.Exposure Proofs.ExposureSpec Proofs.ExposureSession.
+From PyxelV Require Import Model.Exposure Model.ExposureF Proofs.Exposure Proofs.ExposureSpec Proofs.ExposureSession
+  Proofs.ExposureF.
 From PyxelGen Require Import Gen_C02.
 Import ListNotations.
 Open Scope Q_scope.
@@ -94,6 +95,54 @@ Theorem C02_no_leak :
   = scenario A zero src_guards src_empty f r s nd ops prog d0'.
 Proof. intros A zero. apply (scenario_no_leak A zero src_guards src_empty). vm_compute. reflexivity. Qed.
 Print Assumptions C02_no_leak.
+
+(* ------------------------------------------------------------------------------------------------ *)
+(* binary64: readout times whose differences are not exactly representable (0.1, 0.2, 0.3, ...)       *)
+
+(* numpy computes the steps and the absolute time in binary64; each is the exact rational value (what the
+   model above computes over Q) rounded to nearest-even ([rnd64] = Flocq's binary_normalize, on Z).  The
+   clock the models see at step i of a valid run is then: time t_i, step fl(t_i - t_(i-1)), absolute time
+   fl(start + t_i), counter i, first / last — for every schedule, not only the exactly representable ones *)
+Theorem C02_float_clock :
+  forall (A : Type) (zero : A) f r s nd ops (prog : program A) d0, valid_scenario r s nd ops ->
+  exists qs st trace,
+    r_times (final r s nd ops) = R1 (map TQ qs) /\ r_start (final r s nd ops) = TQ st
+    /\ round_outcome (scenario A zero src_guards src_empty f r s nd ops prog d0) = Ran trace
+    /\ length trace = length qs
+    /\ forall i o, nth_error trace i = Some o ->
+         c_time (o_clock o) = TQ (nth i qs 0)
+         /\ c_step (o_clock o) = rnd64 (TQ (nth i qs 0 - nth i (st :: qs) 0))
+         /\ c_abs (o_clock o) = rnd64 (TQ (st + nth i qs 0))
+         /\ c_count (o_clock o) = Z.of_nat i
+         /\ c_first (o_clock o) = Nat.eqb i 0
+         /\ c_last (o_clock o) = Nat.eqb (S i) (length qs).
+Proof. intros A zero. apply (st_clock_f A zero src_guards src_empty); vm_compute; reflexivity. Qed.
+Print Assumptions C02_float_clock.
+
+(* the binary64 oracle of the correspondence leg ([case_violates_f]) never flags the rounded image of the
+   model's own trace *)
+Theorem C02_float_oracle_accepts_model :
+  forall f r s nd ops plan d0 rp0 os,
+  valid_scenario r s nd ops ->
+  scenario Z 0%Z src_guards src_empty f r s nd ops (prog_of plan) d0 = Ran os ->
+  case_violates_f {| k_form := f; k_raw := r; k_start := s; k_nd := nd; k_ops := ops; k_d0 := d0;
+                     k_rp0 := rp0; k_plan := plan; k_obs := IRan (map round_obs os) |} = false.
+Proof. apply (oracle_f_accepts_model src_guards src_empty); vm_compute; reflexivity. Qed.
+Print Assumptions C02_float_oracle_accepts_model.
+
+(* times 0.1, 0.2, 0.3 (the doubles) from start 0: the steps are 0.1, 0.1, 0.09999999999999998 and not three
+   times the same number; rounding is the identity on exactly representable values *)
+Example C02_ex_float_steps :
+  let d01 := TQ (3602879701896397 # 36028797018963968) in
+  let d02 := TQ (3602879701896397 # 18014398509481984) in
+  let d03 := TQ (5404319552844595 # 18014398509481984) in
+  forallb (fun p => tv_eqb (fst p) (snd p))
+          (combine (steps_f (TQ 0) [d01; d02; d03]) [d01; d01; TQ (900719925474099 # 9007199254740992)])
+  = true
+  /\ tv_eqb (rnd64 (tadd d01 d02)) (TQ (5404319552844596 # 18014398509481984)) = true
+  /\ tv_eqb (rnd64 (TQ (3 # 2))) (TQ (3 # 2)) = true /\ tv_eqb (rnd64 (TQ (-7 # 1))) (TQ (-7 # 1)) = true
+  /\ rnd64 TNaN = TNaN.
+Proof. vm_compute. repeat split. Qed.
 
 (* ------------------------------------------------------------------------------------------------ *)
 (* several runs on ONE detector object                                                                *)
